@@ -9,7 +9,8 @@ Engine E4 (scene sweep through the public driver). Finite menu, run exhaustively
    background permittivity {1, 2.25}. CW: flux averaged over the last 4 periods (after the documented 4-period ramp and
    6 more periods); pulse: time-integrated flux.
  * GaussianPlaneSource, radius {0.3, 0.5, 1.0} wavelengths, six directions, 3-D domain with PML (8 cells) on all faces,
-   transverse interior of 4 (and 6) radii, flux planes over the whole interior cross-section: backward < 10 % of forward.
+   transverse interior of 4 and 6 radii (thorough: also 20 radii at 15 cells per wavelength, CW), flux planes over the whole
+   interior cross-section: backward < 10 % of forward.
 
 The forward flux must itself be positive in the declared direction and above a measured floor (non-trivial rule).
 """
@@ -19,7 +20,7 @@ MANIFEST = {
     "engine": "E4-scene-sweep",
     "technique": "bounded exhaustive sweep of a finite scene menu (propagation axes x directions x polarizations x resolutions x temporal profiles x background media; Gaussian radii x directions) through run_fdtd against flux-ratio threshold oracles",
     "text": "Every scene of the stated finite menu is run through fdtdx.run_fdtd: UniformPlaneSource at normal incidence in a transversely periodic homogeneous medium for all 3 axes x 2 directions x 5 transverse polarizations (+1 seed angle) x {15,20} cells per wavelength x {CW, Gaussian pulse} x permittivity {1, 2.25}, with Poynting-flux planes 4 cells either side: backward/forward power < 1e-3 and forward power positive in the declared direction; GaussianPlaneSource with radius {0.3,0.5,1.0} wavelengths in all six directions in a 3-D all-PML domain: backward < 10% of forward.",
-    "note": "Threshold property over a continuous scene family: model checking contributes only the exhaustive sweep of the menu, nothing is sampled. Resolution is counted in cells per wavelength inside the medium (so >= 15 also per vacuum wavelength). CW powers are averages over the last 4 carrier periods (steadiness of the forward average is a precondition), pulsed powers are time integrals (the pulse must have passed). The Gaussian figure depends on the finite flux-plane size; the menu uses transverse interiors of 4 and 6 radii.",
+    "note": "Threshold property over a continuous scene family: model checking contributes only the exhaustive sweep of the menu, nothing is sampled. Resolution is counted in cells per wavelength inside the medium (so >= 15 also per vacuum wavelength). CW powers are averages over the last 4 carrier periods (steadiness of the forward average is a precondition), pulsed powers are time integrals (the pulse must have passed). The Gaussian figure depends on the finite flux-plane size (wider planes count more of the grazing radiation on both sides); the menu uses transverse interiors of 4 and 6 radii and, in thorough, 20 radii.",
 }
 RULE = (
     "case = one scene (source kind, propagation axis, direction, polarization angle, cells per wavelength, temporal profile, background "
@@ -30,7 +31,7 @@ RULE = (
 )
 ASSUMPTIONS = [
     "finite menu: polarization angles {0,30,45,60,90 degrees (+1 seed angle)}, {15,20} cells per wavelength, permittivity {1,2.25}, Gaussian radii {0.3,0.5,1.0} wavelengths with the default std = radius/3",
-    "flux planes 4 cells from the injection plane; Gaussian flux planes cover the interior cross-section (4 or 6 radii wide), so power radiated at grazing angles beyond them is not counted on either side",
+    "flux planes 4 cells from the injection plane; Gaussian flux planes cover the interior cross-section (4, 6 or 20 radii wide), so power radiated at grazing angles beyond them is not counted on either side",
     "CW power = average of the flux record over the last 4 carrier periods (window rounded to whole steps)",
     "float64 evaluation is representative of the float32 default",
 ]
@@ -38,6 +39,7 @@ THRESH_UNIFORM = 1e-3
 THRESH_GAUSS = 0.1
 FLOOR = 1e-18
 ANGLES = (0.0, 90.0, 30.0, 45.0, 60.0)
+WIDE = 20  # transverse interior / flux-plane width in radii of the "wide" Gaussian elements
 
 
 def _u(ax, d, ang, res, prof, eps):
@@ -86,6 +88,11 @@ def cases(tier, seed):
                         for prof in ("cw", "pulse"):
                             out.append(_g(ax, d, (0.0, 90.0, 45.0, sa)[k % 4], res, prof, rad, tmul))
                             k += 1
+        # wide flux planes (20 radii): count (almost) all of the radiated power, including the grazing part
+        for rad in (0.3, 0.5, 1.0):
+            for ax, d in dirs:
+                out.append(_g(ax, d, (0.0, 90.0, 45.0, sa)[k % 4], 15, "cw", rad, WIDE))
+                k += 1
     for c in out:
         c["seed"] = seed
     return out
@@ -109,7 +116,7 @@ def bounds(tier, seed):
         "gaussian_domain": "8-cell PML on all faces, flux planes over the interior cross-section 4 cells either side",
         "thresholds": {"uniform": THRESH_UNIFORM, "gaussian": THRESH_GAUSS},
         "seed": seed,
-        "tier_note": "quick is a covering subset (all 6 directions x 2 axis polarizations x CW, one oblique/pulsed scene per direction, 2 Gaussian beams); thorough is the full product (Gaussian polarization rotates through the angle menu)" if tier == "quick" else "full product for the uniform source; Gaussian: radii x directions x resolutions x sizes x profiles, polarization rotating through {0,90,45,seed}",
+        "tier_note": "quick is a covering subset (all 6 directions x 2 axis polarizations x CW, one oblique/pulsed scene per direction, 2 Gaussian beams); thorough is the full product (Gaussian polarization rotates through the angle menu)" if tier == "quick" else "full product for the uniform source; Gaussian: radii x directions x resolutions x sizes{4,6} x profiles plus radii x directions at 20 radii (15 cells per wavelength, CW), polarization rotating through {0,90,45,seed}",
     }
 
 
@@ -117,7 +124,19 @@ def _sig(case):
     base = f"{case['dir']}{'xyz'[case['axis']]}:{case['prof']}"
     if case["kind"] == "uniform":
         return f"uniform:{base}:eps={case['eps']:g}"
-    return f"gauss:{base}:radius={case['rad']:g}"
+    return f"gauss:{base}:radius={case['rad']:g}:planes={case['tmul']}radii"
+
+
+def _log(case, res):
+    """Optional per-case detail log (one JSON line per case) for margin reports: set VERIF_DETAIL_LOG=<path>."""
+    import json
+    import os
+
+    path = os.environ.get("VERIF_DETAIL_LOG")
+    if path:
+        with open(path, "a") as fh:
+            fh.write(json.dumps(dict(case=case, ok=res["ok"], failures=[f["sig"] for f in res.get("failures", [])], detail=res.get("detail")), default=str) + "\n")
+    return res
 
 
 def run_case(case):
@@ -157,4 +176,4 @@ def run_case(case):
     import math
 
     oc = f"{case['kind']}:{case['prof']}:ratio~1e{int(math.floor(math.log10(max(ratio, 1e-300))))}" if math.isfinite(ratio) else f"{case['kind']}:{case['prof']}:ratio=inf"
-    return dict(ok=not fails, failures=fails, detail=detail, nontrivial=int(nontriv), evals=1, outcome=oc)
+    return _log(case, dict(ok=not fails, failures=fails, detail=detail, nontrivial=int(nontriv), evals=1, outcome=oc))
